@@ -543,7 +543,7 @@ class Runner:
             instr = [("set", P_RT, ("xml", rtx)) if (it[0] == "set" and it[1] == P_RT) else it for it in instr]
         if instr:
             # instructions in document order (RFC 4918 9.2): the model applies them in that order
-            body = dav.proppatch_body_ordered(instr)
+            body = dav.proppatch_body_ordered(instr, grouped=bool(st.get("grouped")))
         else:
             body = dav.proppatch_body(sets, removes)
             instr = [("set", k, v) for k, v in sets] + [("remove", k) for k in removes]
@@ -1511,6 +1511,21 @@ class Runner:
                     self.check_emitted(fe, tgt, h, "addressbook-home-set", self.coll_expect("/user/contacts"))
                 for h in resp.prop_hrefs(props[4]):
                     self.check_emitted(fe, tgt, h, "add-member", self.coll_expect(subject) if subject != "/user" else {"kind": "principal"})
+            # the same properties of *members* in a Depth 1 answer: each value belongs to the member it is listed under
+            if mc is not None:
+                parent = posixpath.dirname(coll)
+                tgt = self.world.url(parent + "/")
+                r = self.req(fe, "PROPFIND", None, [("Depth", "1"), dav.XML_CT], dav.propfind_body([props[4], P_RT]), raw_target=tgt)
+                ms = dav.parse_ms(r)
+                if ms is not None:
+                    pre = self.world.prefix.rstrip("/")
+                    for resp in ms.responses[1:]:
+                        rp = dav.href_path(dav.resolve("http://localhost" + tgt, resp.href or "")) or ""
+                        rp = (rp[len(pre):] if pre and rp.startswith(pre) else rp).rstrip("/")
+                        if rp in self.model.colls:
+                            for h in resp.prop_hrefs(props[4]):
+                                self.stats["href:add-member-depth1"] += 1
+                                self.check_emitted(fe, tgt, h, "add-member-of-listed-member", self.coll_expect(rp))
         return set()
 
 
